@@ -186,10 +186,12 @@ class Gen:
         items = self.s.active(cname, v)
         key_for = {}                                  # index of a key item -> the dispatched item that uses it
         for it in items:
-            if it.get('by'):
+            if it.get('by') and it['by'].get('src') != 'next_type':
                 key_for[it['by']['ix']] = it
         fields = []
         rebind = self.s.classes[cname].get('rebind')
+        if self.s.classes[cname].get('rebind_nested'):
+            rebind = None                 # the header item is generated as a header (which announces v itself)
         for i, it in enumerate(items):
             if rebind is not None and i == rebind:
                 # the ProtocolVersion item the reader rebinds kmip_version from: announce the version generated for
@@ -208,12 +210,21 @@ class Gen:
                 n = 1 if self.rng.random() < 0.6 else 0
             else:
                 n = self.rng.choice([0, 1, 1, 2, 3])
+            if it.get('by') and it['by'].get('src') == 'next_type' and it['mult'] == 'Req':
+                n = 1
             if i in key_for and n:
                 table = key_for[i]['by']['table']
                 row = self.rot('key:%s.%s' % (cname, it['field']), table)
                 key = row[0]
                 val = ('P', 'PText', key[1]) if key[0] == 'text' else ('E', it['kind'][1], key[1])
                 fields.append((it, [val]))
+                continue
+            if it.get('by') and it['by'].get('src') == 'next_type':
+                # kind chosen by the type byte of the item itself: any row
+                row = self.rot('alt:%s.%s' % (cname, it['field']), it['by']['table'])
+                res = dict(it, tag=row[1], kind=list(row[2]))
+                res.pop('by')
+                fields.append((res, [self.value(tuple(row[2]), v, depth) for _ in range(n)]))
                 continue
             if it.get('by'):
                 kf = fields[it['by']['ix']][1] if it['by']['ix'] < len(fields) else []
@@ -230,6 +241,14 @@ class Gen:
                 fields.append((res, [self.value(tuple(row[2]), v, depth) for _ in range(n)]))
                 continue
             fields.append((it, [self.value(tuple(it['kind']), v, depth) for _ in range(n)]))
+        # a counted item: the Integer item of the header structure that holds the count says how many there are
+        for i, it in enumerate(items):
+            cn = it.get('counted')
+            if cn and cn['ix'] < len(fields) and len(fields[cn['ix']][1]) == 1:
+                hv = fields[cn['ix']][1][0]
+                for k, (hit, hvals) in enumerate(hv[2]):
+                    if hit['tag'] == cn['tag'] and hvals:
+                        hv[2][k] = (hit, [('P', 'PInt', len(fields[i][1]))])
         return ('S', cname, fields)
 
     def count_vectors(self, cname, v, budget, exhaustive_limit=8):
